@@ -2,7 +2,7 @@ from . import term_common
 
 SPEC = {
     "props_file": "C03.v",
-    "targets": ["theories/Props/C03.vo", "theories/Term/Check.vo"],
+    "targets": ["theories/Props/C03.vo", "theories/Term/Check.vo", "theories/Term/Cover.vo"],
     "fail_text": "a reported figure (obj_val, obj_val_dual, r_prim, r_dual, iterations, vector lengths, Almost* status) disagrees with its exact recomputation from the returned vectors and the original data beyond the stated tolerance",
     "direct_keys": ["lengths_ok", "keep_agree", "iterations_agree", "status_agree"],
     "rule": "one evaluation = one solver run (every terminal status), its reported figures recomputed in exact dyadic arithmetic by the proved-sound checker chk_report from the returned vectors and the user's original data; non-trivial = at least 2 variables or constraints; distinct = distinct problem JSON",
